@@ -8,3 +8,4 @@ import BezierVerif.Props.C19
 import BezierVerif.Props.C18
 import BezierVerif.Props.C20S
 import BezierVerif.Props.C20
+import BezierVerif.Props.C04
